@@ -203,4 +203,53 @@ PROPS['C10'] = {
     'design_ref': '§6 C10',
 }
 
+PROPS['C06'] = {
+    'title': 'A replica fed the change stream converges to the primary',
+    'modules': ['ColumnVerif.Props.C06', 'ColumnVerif.Props.C06skel'],
+    'runs': [{'mode': 'store'}, {'mode': 'sched'}],
+    'skeleton': True,
+    'trusted_base': CONC_TB + STORE_TB[3:],
+    'assumptions': [
+        "strings/records under the D12 guard (no op after a resizing merge on the same offset in one section); counterexample theorem and KNOWN_FINDINGS entry",
+        "channel logger with multi-chunk transactions: finding D16 (the cloned buffers of all chunks are re-applied) — reached by the scheduler, listed in KNOWN_FINDINGS; the serialized-log path is unaffected",
+        "a Delete does not carry the stale raw bytes of a slot: replica and primary agree on everything a reader can see (VisEq), not on dead bytes",
+        "enum and key columns are exercised by the correspondence only",
+    ],
+    'level_text': "Lean theorems. Sequential core (executable column model): the section a commit emits contains no Merge (every merge rewritten into a Put of the stored result), so replaying it never consults the replica's merge function or previous data; a replica in sync stays in sync slot by slot through every pass, and over whole histories (numeric unconditionally, strings under the D12 guard). Schedule part (small-step machine, any number of writers/chunks/steps, arbitrary merge): the value a replica holds after replaying the stream in arrival order is the primary's value after the prefix of commits already handed to the logger, and equals the primary's value whenever the primary is quiescent; streams of different chunks commute. Tied to the code by the regenerated skeleton (emission inside the latch, Clone carries the id), differential histories with a replica through both loggers, and controlled schedules of racing writers with a replica-dump oracle.",
+    'technique': 'Lean 4 proof (absolute-commit replay lemma; machine invariant over all schedules) + regenerated protocol skeleton + correspondence + controlled scheduling',
+    'design_ref': '§6 C06',
+}
+
+PROPS['C13'] = {
+    'title': 'Truncated snapshot or log files never restore silently wrong state',
+    'modules': ['ColumnVerif.Props.C13', 'ColumnVerif.Props.C13skel'],
+    'runs': [{'mode': 'trunc'}, {'mode': 'codec'}],
+    'skeleton': True,
+    'trusted_base': TB_COMMON + [SKEL_TB,
+        "validated assumption, not proved: s2 framing — a prefix cut inside a frame yields the payload of the complete frames and then a non-EOF error, a cut at a frame boundary yields that payload and clean EOF (the harness parses the real frames and the model is compared on every cut)",
+        "modelled from its source: kelindar/iostream primitives (uvarint, little-endian ints, length-prefixed bytes)"],
+    'assumptions': [
+        "the model reads a source whose failing read has exhausted it (true for every prefix of a valid stream); malformed (not truncated) streams are outside",
+        "the per-chunk state section (readState) is covered byte-exactly by the Buffer.ReadFrom prefix lemma and by the exhaustive cut oracle on the implementation, not by a theorem of its own",
+        "observation (proved as an example): with a clean end, a log cut between two primitives of a commit drops the partial commit without an error flag — the property allows it (prefix of whole commits)",
+    ],
+    'level_text': "Lean theorems over the byte-exact wire model: every primitive, buffer, commit-buffer and commit decoder fails on every strict prefix of an encoding (never ok; never confused with EOF when the cut is inside a compressed frame); Log.Range over any cut of a log delivers exactly the first k whole commits, in order, k = number of commits whose encoding ends before the cut — never part of a commit; full log round trip. Decoders are total functions (no panic, no hang in the model). Tied to the code by cutting real snapshot streams (with and without commits recorded during the snapshot, several chunks, > 60 KB commits) at every byte / every s2 frame boundary ± 2: Restore must fail or equal the original at a commit boundary (implementation-only oracle with watchdog), and Log.Range's delivered count and error flag are compared with the model on every log cut.",
+    'technique': 'Lean 4 proof (prefix-freeness by composition of decoders) + model/implementation correspondence on every cut',
+    'design_ref': '§6 C13',
+}
+
+PROPS['C14'] = {
+    'title': 'A failed snapshot reports the error and leaves the collection usable',
+    'modules': ['ColumnVerif.Props.C14', 'ColumnVerif.Props.C14skel'],
+    'runs': [{'mode': 'snapfail'}],
+    'skeleton': True,
+    'trusted_base': TB_COMMON + [SKEL_TB, "observed, not modelled: OS behaviour (descriptor numbering, unlink semantics), the s2 writer (errors surface at the latest at Flush)"],
+    'assumptions': [
+        "the resource model has three fault classes (open temp, write state, copy log); which write call / byte budget fails inside a class is quantified by the correspondence, not by the model",
+    ],
+    'level_text': "Lean theorems over the Snapshot resource machine (recorder slot, descriptors, temp files), for every fault combination and every history of calls: an error is returned exactly when something failed; afterwards the recorder is released and no descriptor or temp file is left; a concurrent second snapshot is refused without leak; a later healthy snapshot succeeds; counterexample for the code before the repair (D5). The clean-up actions (defers right after the open, clean-up on CAS failure, close before copy) are read from the regenerated skeleton. Tied to the code by injecting a failure at every write call and byte budget (once / forever) on empty, one-chunk and three-chunk collections, comparing the observed (recorder, fd delta, temp delta, error) with the model, and checking that commits and a healthy snapshot + restore still work.",
+    'technique': 'Lean 4 proof (case analysis over fault combinations, induction over call histories) + regenerated protocol skeleton + fault-injection correspondence',
+    'design_ref': '§6 C14',
+}
+
 ALL_IDS = ['C%02d' % i for i in range(1, 20)]
